@@ -135,7 +135,7 @@ NEEDS = {
  "C19-8": ("Channels.NewVoucherResult skips results whose payload is nil or IPLD null", "typed voucher result with a null payload"),
  "C19-2": ("NewVoucher restricted to a hand-built status list that omits ResponderFinalizingTransferFinished", "SendVoucher while the initiator is in ResponderFinalizingTransferFinished"),
 }
-NOT_CAUGHT={"C17-5":"the per-transfer subscriber misses Error / CleanupComplete only because the real notifier delivers them asynchronously, after the unsubscribe; the synchronous model delivers them inside channels.Error, before the unsubscribe runs - notification timing relative to the caller is declared outside the claim under C17","C09-6":"the re-run of the cleanup entry function needs an event to arrive in the window between entering Cancelling/Failing/Completing and CleanupComplete, which only exists in the asynchronous go-statemachine queue (the synchronous model finishes the cleanup before the next event); the unchanged tree has the same re-entry for the events that are already FromAny().ToNoChange() (DataReceived, Disconnected, ...), so this window is declared outside the claim under C09","C17-3":"needs the asynchronous notification queue of go-statemachine (a subscriber slower than 5 s lets the next notification overtake); the synchronous model group delivers notifications inside Send, so ordering under slow subscribers is declared outside the claim"}
+NOT_CAUGHT={"C09-6":"the re-run of the cleanup entry function needs an event to arrive in the window between entering Cancelling/Failing/Completing and CleanupComplete, which only exists in the asynchronous go-statemachine queue (the synchronous model finishes the cleanup before the next event); the unchanged tree has the same re-entry for the events that are already FromAny().ToNoChange() (DataReceived, Disconnected, ...), so this window is declared outside the claim under C09"}
 os.makedirs(DST, exist_ok=True)
 n=0
 for key,(what,needs) in sorted(NEEDS.items()):
